@@ -900,8 +900,8 @@ class Frame:
                     raise ModelAbort("type", "READ into whole array")
                 tt = r.cell.typ[0]
                 if (tt == "STRING") != isinstance(v, str):
-                    if tt == "STRING":
-                        raise ModelAbort("unspec", "numeric DATA item read into a string")
+                    # READ is a typed assignment of a compiled DATA expression: string <-> number does not convert (this is why
+                    # the tool rewrites every DATA item to a string literal once one of them is empty)
                     raise B09Error(UNSPEC, f"READ type mismatch: {v!r} into {tt}")
                 r.set(v)
             return pc + 1
